@@ -21,12 +21,13 @@ type histCfg struct {
 }
 
 type reporter struct {
-	c     *verdict.Ctx
-	hist  int
-	cfg   histCfg
-	plans []cutPlan // crash outcomes applied on the path to the current directory
-	weak  bool      // synced-region corruption class: only "never return what was not written" is demanded
-	dirty bool      // something was reported on this path
+	c      *verdict.Ctx
+	hist   int
+	cfg    histCfg
+	plans  []cutPlan // crash outcomes applied on the path to the current directory
+	weak   bool      // synced-region corruption class: only "never return what was not written" is demanded
+	dirty  bool      // something was reported on this path
+	stream string    // PRNG stream of the case ("" = "history")
 }
 
 func (rp *reporter) child(p cutPlan) *reporter {
@@ -84,7 +85,11 @@ func (rp *reporter) violation(m *model, kind string, idx int, what string, extra
 		what = what + "; " + t.Why
 	}
 	rp.dirty = true
-	w := witness{Stream: "history", Index: rp.hist, Cfg: rp.cfg, Plans: rp.plans, Kind: kind, What: what, Taint: t, Extra: extra}
+	stream := rp.stream
+	if stream == "" {
+		stream = "history"
+	}
+	w := witness{Stream: stream, Index: rp.hist, Cfg: rp.cfg, Plans: rp.plans, Kind: kind, What: what, Taint: t, Extra: extra}
 	if idx >= 0 && idx < len(m.J) {
 		w.Record = m.J[idx].desc()
 	}
